@@ -578,3 +578,19 @@ func trackerDropAfterCount(c *Ctx, rule string) {
 	}
 	c.Floor("updateKeyTracker tracker write sites", n, 2)
 }
+
+// shallowNodes lists every node inside n that is not inside a function literal.
+func shallowNodes(n ast.Node) []ast.Node {
+	var out []ast.Node
+	ast.Inspect(n, func(m ast.Node) bool {
+		if m == nil {
+			return true
+		}
+		if _, ok := m.(*ast.FuncLit); ok {
+			return false
+		}
+		out = append(out, m)
+		return true
+	})
+	return out
+}
